@@ -605,3 +605,34 @@ Example C08_plain_checker_nonvacuous :
   RetabHard.check_history_plain h_ok = None /\ check_history h_ok = None /\
   RetabHard.check_history_plain h_bad = Some 1%nat /\ check_history h_bad = Some 1%nat.
 Proof. cbv zeta. repeat split; vm_compute; reflexivity. Qed.
+
+(** * Arithmetic probes (Model/HardArith.v): the four interest computations on crafted records *)
+From Kava Require Import Model.HardArith.
+
+(* a probe that agrees with the model shows the handler-side sync and the query agreeing:
+   on the borrow side always, on the supply side whenever the interest is not negative
+   (it never is for a factor at or above the user's index: C08_invariant_all_histories) *)
+Theorem C08_probe_borrow_sync_equals_view :
+  forall p, probe_ok p = true -> p_sync_b p = p_view_b p.
+Proof.
+  intros p H. unfold probe_ok in H.
+  apply andb_prop in H. destruct H as [H _]. apply andb_prop in H. destruct H as [H _].
+  apply andb_prop in H. destruct H as [H1 H2].
+  apply Z.eqb_eq in H1. apply Z.eqb_eq in H2. unfold model_sync_b, model_view_b in *. congruence.
+Qed.
+Print Assumptions C08_probe_borrow_sync_equals_view.
+
+Theorem C08_probe_supply_sync_equals_view :
+  forall p, probe_ok p = true -> 0 <= sup_interest (p_a p) (p_f p) (p_uf p) -> p_sync_s p = p_view_s p.
+Proof.
+  intros p H I. unfold probe_ok in H.
+  apply andb_prop in H. destruct H as [H H4]. apply andb_prop in H. destruct H as [_ H3].
+  apply Z.eqb_eq in H3. apply Z.eqb_eq in H4. unfold model_sync_s, model_view_s in *.
+  destruct (Z.ltb_spec 0 (sup_interest (p_a p) (p_f p) (p_uf p))); lia.
+Qed.
+Print Assumptions C08_probe_supply_sync_equals_view.
+
+(* the corner the probes aim at: amount*factor/index is an integer, amount/index is not *)
+Example C08_probe_rounding_corner :
+  bor_interest 10000000 (6 * PREC) (3 * PREC) = 9999999 /\ sup_interest 10000000 (6 * PREC) (3 * PREC) = 10000000.
+Proof. vm_compute. split; reflexivity. Qed.
